@@ -23,5 +23,28 @@ claim("C03", "Lean 4 theorems about definitions regenerated from the source (py2
       "Transformed objects, their merged forms and the premade flows' orientation are compared with the model on every run.",
       _TB + " Base distributions are abstract records; PRNG is JAX's. BNAF/triangular-spline factories cannot be constructed in this environment.", "DESIGN.md §5 C03")
 
-for _p in ["C02","C04","C05","C06","C08","C09","C10","C11","C12","C13","C14","C15","C16","C17","C18"]:
+claim("C12", "Lean 4 theorems (core Lean, no Mathlib) about a hand model of pytrees with wrapper nodes + differential correspondence on real pytrees and real training runs",
+      "For every pytree (any size, nesting depth, container width, any per-class unwrap bodies returning wrapper-free values): unwrap leaves no wrapper, is idempotent, applies "
+      "every wrapper node exactly once with inner wrappers before outer ones, and commutes with slicing a tree built under any number of vmap levels (batched unwrap = stack of "
+      "per-slice unwraps); a method of the form g∘unwrap gives the same result on t and unwrap t; partition(is_inexact_array, is_leaf=NonTrainable) puts every leaf under a "
+      "NonTrainable and every non-inexact leaf in the static half, combine∘partition = id, and for EVERY sequence of update trees (any optimiser, loss, number of steps of either loop) "
+      "the trained tree has the same static half (frozen and non-float leaves bit-identical); get_ravelled_pytree_constructor counts only trainable entries, fixes the frozen ones "
+      "for every v, and constructor(0)=t. The model is run against the real unwrap / eqx.partition / apply_updates / constructor on random real wrapper trees (order of application "
+      "observed through instrumented subclasses), vmapped constructions and real flows; real fit_to_data / fit_to_variational_target runs (adam, sgd+momentum, adamw with weight decay) "
+      "are compared bitwise on frozen leaves; all bijection/distribution methods are compared on t vs unwrap(t).",
+      "Trusted: Lean 4.33 kernel, axioms propext/Classical.choice/Quot.sound (audited per run, no sorry/native_decide); the hand model Model/Tree.lean of jax flattening order, "
+      "eqx.partition/combine/apply_updates, ravel_pytree and filter_vmap, and the encoder of real pytrees (both validated by the correspondence on every run). "
+      "Partial: exactly-zero gradients rest on stop_gradient's semantics (measured: jax.grad is exactly 0; absence of frozen leaves from the differentiated params half is proved); "
+      "Where/WeightNormalization built under vmap are covered only when their arguments broadcast batch-polymorphically (hypothesis in WB; the real Where with mixed-rank arguments under vmap "
+      "unwraps to a wrong value or raises); the per-class unwrap bodies are abstract.", "DESIGN.md §5 C12")
+
+claim("C08", "Lean 4 theorems about generated Chain/Invert and a hand n-d array model of the other combinators + differential correspondence on random expression trees",
+      "For arrays of any rank and size: jnp.array_split/jnp.concatenate/jnp.stack along any axis are modelled on the (outer, axis, inner) view of row-major data and proved mutually "
+      "inverse; Concatenate/Stack apply child j to exactly slice j and write exactly slice j, are lawful when the children are, and return the sum of the children's log-dets; Partial "
+      "changes only the indexed positions (gather/scatter laws); Reshape/EmbedCondition only re-present the inputs; the generated Chain is composition, the generated Invert swaps "
+      "directions; slicing, merge_chains and merge_transforms never change the function; Scan/Vmap enter through their defining equivalences. The model is run against the real "
+      "combinators on random trees: ranks 0-3, every valid axis incl. negative, every index kind of Partial, conditional and unconditional children mixed, Scan, Vmap.",
+      _TB + " Model/Arr.lean is a hand model tied by correspondence; lax.scan / filter_vmap themselves are JAX's; declared-shape algebra for negative axes is proved in C13's ArgCheck model.", "DESIGN.md §5 C08")
+
+for _p in ["C02","C04","C05","C06","C09","C10","C11","C13","C14","C15","C16","C17","C18"]:
     NOT_YET[_p] = "not yet built in this round: theorems and correspondence under construction (see DESIGN.md §8); never claimed on the strength of the harness alone"
